@@ -61,9 +61,15 @@ OfferBytes(s, i, tab) ==
 OffersDistinct == \A s \in OfferSeqs : Len(OfferBytes(s, 1, <<>>)) = Len(s)      \* at most 3 objects: one byte per offer
 Offers == IF n = 1 /\ succ[1] = <<>> THEN {<<s, OfferBytes(s, 1, <<>>)>> : s \in OfferSeqs} ELSE {}
 
+\* sharing across the chunks of a record with a header: chunk 0 holds the graph, chunk 1 (an added field) is just a
+\* reference to the k-th object of the graph - read at position 0 of its own region
+CrossBytes(e, k) == LET c1 == VarU(k) IN <<1>> \o VarI(Len(e.b)) \o VarI(Len(c1)) \o e.b \o c1
+CrossCases(e) == {<<k, CrossBytes(e, k)>> : k \in IF IsBig THEN {2, 127, 128, Len(e.tab)} \cap 1..Len(e.tab) ELSE 1..Len(e.tab)}
+
 Case(lab) == LET e == EncGraph(G(lab)) IN
   [g |-> G(lab), b |-> e.b, canon |-> Canon(G(lab)),
    tampers |-> {<<t[1], t[2], Verdict([e.b EXCEPT ![t[1]] = t[2]])>> : t \in Tampered(e)},
-   tails |-> {<<Len(e.b) - BackRefLen, t, Verdict(SubSeq(e.b, 1, Len(e.b) - BackRefLen) \o t)>> : t \in Tails(e)}]
+   tails |-> {<<Len(e.b) - BackRefLen, t, Verdict(SubSeq(e.b, 1, Len(e.b) - BackRefLen) \o t)>> : t \in Tails(e)},
+   cross |-> CrossCases(e)]
 EmitCases == PrintT(<<"REPLAY", ToJson([cases |-> {Case(lab) : lab \in Labelings}, offers |-> Offers])>>)
 =============================================================================
